@@ -346,6 +346,8 @@ pub struct MPoll {
     /// current_local_parent() observed inside the call, first action
     pub inside_clp: Vec<Option<(u128, u64, bool)>>,
     pub inside_panicked: bool,
+    /// the inner object panicked deliberately at the end of this call (scripted)
+    pub inner_panic: bool,
     /// scope opened by this poll (model)
     pub scope: Option<usize>,
     /// scope of the outer span of a chained adapter, opened around `scope`
